@@ -294,8 +294,7 @@ def category(mh, revs, patterns):
         return "multi-revision-span"
     if dir_move:
         return "dir-move-with-inner-change"
-    if (renamed_to & chmodded) - modified:
-        return "rename-with-exec-only-change"
+    # (a rename with an exec-only change was its own class until it was fixed in /repo 27037ec)
     if "kind-change" in labels:
         return "kind-change"
     if "swap" in labels:
@@ -304,7 +303,7 @@ def category(mh, revs, patterns):
 
 
 RERUN_CLASS = "rerun-repeats-renames"
-GUARD_CLASSES = ("symlink", "ignored-path-moved", "multi-revision-span", "dir-move-with-inner-change", "rename-with-exec-only-change")
+GUARD_CLASSES = ("symlink", "ignored-path-moved", "multi-revision-span", "dir-move-with-inner-change")
 
 
 def vsig(oracle, mh, revs, patterns, rest):
